@@ -420,7 +420,7 @@ def verdict (v : V) (e : View) : Except Raise Verdict :=
     match e.value with
     | .none => pass                                              -- `if url is None: return True`
     | .str url => httpValidate allParts required forbidden e.lib url
-    | _ => .error .attributeError                                -- urlparse of a number
+    | _ => .error .unsupported                                   -- a value that is not text goes to urlparse as it is: 0 / False / b'' parse as BYTES, other numbers raise AttributeError — outside the model (Spec.inModel)
   | .urlCanonicalizer discardParts =>
     -- `if not self.discard_parts or element.value is None: return True` (3bf2238)
     if discardParts.isEmpty || e.value == .none then pass
@@ -430,7 +430,7 @@ def verdict (v : V) (e : View) : Except Raise Verdict :=
         | .error r => .error r
         | .ok .badFormat => fail "bad_format"
         | .ok (.rewritten _) => pass
-      | _ => fail "bad_format"                                   -- urlparse of a number raises, `except Exception`
+      | _ => .error .unsupported                                 -- not text: urlparse(0) does NOT raise (bytes result; the element's value becomes b'') — outside the model (Spec.inModel)
 
 /-- the value after the call: only `URLCanonicalizer` assigns `element.value` -/
 def valueAfter (v : V) (e : View) : Val :=
